@@ -143,6 +143,7 @@ def gen_session(seed):
     n = rng.range(3, 22)
     p_bad = rng.choice([0.0, 0.08, 0.15])
     p_reset = rng.choice([0.0, 0.06, 0.12])
+    p_exec = rng.choice([0.0, 0.0, 0.08, 0.15])
     sess = []
     for _ in range(n):
         x = rng.below(1000)
@@ -150,6 +151,11 @@ def gen_session(seed):
             sess.append(["bad", rng.below(len(BAD))])
         elif x < (p_bad + p_reset) * 1000:
             sess.append(["reset"])
+        elif x < (p_bad + p_reset + p_exec) * 1000:
+            # the host calls a script function through the embedding API, sometimes with the wrong number of arguments
+            which = rng.choice(["pf", "hf"])
+            arity = 0 if which == "pf" else 2
+            sess.append(["exec", rng.below(3), which, arity if rng.chance(0.6) else rng.choice([n_ for n_ in (0, 1, 2, 3) if n_ != arity])])
         else:
             sess.append(["snip", g.snippet(enabled)])
     # closing probe: all globals, a clean try/finally and a clean try/catch must behave
@@ -211,6 +217,7 @@ def render_snip(stmts, uid, stale=()):
         elif k == "deffn":
             a = st[1] % NG
             out.append("fn pf%d() { g%d = g%d + 1; return %d; }" % (st[1], a, a, st[1] * 11))
+            out.append('fn hf%d(a, b) { g%d = g%d + a + b; print(("ev", %d, a, b)); return a * b; }' % (st[1], a, a, 9000 + st[1]))
         elif k == "callfn":
             out.append('print(("ev", %d, pf%d()));' % (st[2], st[1]))
         elif k == "defclass":
@@ -338,6 +345,30 @@ def model(ir, faults):
         if item[0] == "bad":
             probes.inc("compile_errors")
             outs.append({"kind": "compile", "events": []})
+            continue
+        if item[0] == "exec":
+            k_, which, nargs = item[1], item[2], item[3]
+            if k_ not in st["funcs"]:
+                outs.append({"kind": "nofn", "events": []})
+                continue
+            arity = 0 if which == "pf" else 2
+            if nargs != arity:
+                probes.inc("host_call_refused_for_argument_count")
+                outs.append({"kind": "err", "events": [], "needle": "arguments", "errkind": "TypeError"})
+                continue
+            a_ = st["funcs"][k_]
+            if a_ not in st["G"]:
+                probes.inc("crash_at:nameerror_host_call")
+                probes.inc("crashed_snippets")
+                outs.append({"kind": "err", "events": [], "needle": "NameError"})
+                continue
+            probes.inc("host_calls")
+            if which == "pf":
+                st["G"][a_] += 1
+                outs.append({"kind": "ok", "events": [], "value": str(k_ * 11)})
+            else:
+                st["G"][a_] += 7
+                outs.append({"kind": "ok", "events": [[num(9000 + k_), num(3), num(4)]], "value": "12"})
             continue
         ev = []
         G = st["G"]
@@ -534,6 +565,8 @@ def programs_of(ir):
             progs.append({"kind": "reset"})
         elif item[0] == "bad":
             progs.append({"kind": "snippet", "source": BAD[item[1]]})
+        elif item[0] == "exec":
+            progs.append({"kind": "exec", "name": "%s%d" % (item[2], item[1]), "args": [3, 4, 5][:item[3]]})
         else:
             progs.append({"kind": "snippet", "source": render_snip(item[1], i, stale.get(i, []))})
     fs = {"sm%s" % m: {"source": module_source(int(m), site), "reads": []} for m, site in ir["mod_sites"].items()}
@@ -553,6 +586,10 @@ def compare(exp, hist):
         out = a["outcome"]
         if e["kind"] == "reset":
             continue
+        if e["kind"] == "nofn":
+            if "no_such_function" not in out:
+                return {"class": "session", "msg": "host call %d: the function should not exist, got %s" % (i, json.dumps(out)[:200])}
+            continue
         if e["kind"] == "compile":
             if out.get("err") != "CompileError":
                 return {"class": "session", "msg": "snippet %d: expected a compile error, got %s" % (i, json.dumps(out)[:200])}
@@ -566,6 +603,10 @@ def compare(exp, hist):
                 i, j, json.dumps(ee), json.dumps(aa), json.dumps(out)[:160])}
         if e["kind"] == "ok" and not out.get("ok"):
             return {"class": "session", "msg": "snippet %d: expected normal completion, got %s" % (i, json.dumps(out)[:300])}
+        # (the value Vm::execute hands back is not compared: it is whatever lay below the result on the value stack - the
+        # function object or its last argument - and no listed property says what it should be)
+        if e["kind"] == "err" and "errkind" in e and out.get("err") != e["errkind"]:
+            return {"class": "session", "msg": "host call %d: expected it to be refused with %s, got %s" % (i, e["errkind"], json.dumps(out)[:200])}
         if e["kind"] == "err":
             if "err" not in out:
                 return {"class": "session", "msg": "snippet %d: expected an uncaught failure (%s), got %s" % (i, e["needle"], json.dumps(out)[:200])}
